@@ -320,6 +320,8 @@ theorem szxLoad_triple {a0 : Asset} (fx : Fix) (r : Recv) (inflate : Inflate)
   intro _; apply Triple.pure_pre; intro _
   apply Triple.bind (guardM_triple _ _ (fin _ (by omega)))
   intro _; apply Triple.pure_pre; intro _
+  apply Triple.bind (guardM_triple _ _ (fin _ (by omega)))
+  intro _; apply Triple.pure_pre; intro _
   apply Triple.bind (seekStart_triple 8 (by simp only [stepBound]; omega))
   intro _; apply Triple.pure_pre; intro _
   rw [u8_congr hby, hlen]
